@@ -120,6 +120,7 @@ structure PullSt (V : Type) where
   last : Option V                -- the value of `lastChange` (`none`: the empty change)
   slots : List (Option V)        -- `memberChanges`
   sent : List (Option V)         -- the values forwarded by `server.Send`, oldest first
+deriving DecidableEq
 
 def pullInit (n : Nat) : PullSt V := ⟨none, List.replicate n none, []⟩
 
